@@ -582,6 +582,27 @@ func typeClass(e ast.Expr) string {
 	return "other"
 }
 
+// sourceField names the field of the original the copied data comes from
+// (last argument: s.slack, s.values[k], ...).
+func sourceField(args []ast.Expr) string {
+	if len(args) == 0 {
+		return "?"
+	}
+	e := args[len(args)-1]
+	for {
+		switch t := e.(type) {
+		case *ast.IndexExpr:
+			e = t.X
+			continue
+		case *ast.SelectorExpr:
+			return t.Sel.Name
+		case *ast.Ident:
+			return "local:" + t.Name
+		}
+		return "?"
+	}
+}
+
 func rhsShape(e ast.Expr) string {
 	switch t := e.(type) {
 	case *ast.CallExpr:
@@ -590,9 +611,9 @@ func rhsShape(e ast.Expr) string {
 		case fn == "make":
 			return "make"
 		case strings.HasSuffix(fn, "CopySliceFrom"):
-			return "copyslice"
+			return "copyslice:" + sourceField(t.Args)
 		case strings.HasSuffix(fn, "slices.Clone"):
-			return "clone"
+			return "clone:" + sourceField(t.Args)
 		case strings.HasPrefix(fn, "new"):
 			return "new:" + fn
 		}
@@ -765,6 +786,14 @@ func main() {
 	}
 	files["Skeleton_copy.v"] = w
 	names = append(names, "Skeleton_copy.v")
+	wp := &strings.Builder{}
+	wp.WriteString("(* GENERATED by /verif/translator from /repo's working tree. Do not edit. *)\nFrom Coq Require Import List String.\nFrom NR Require Import Model.Pool.\nImport ListNotations.\nOpen Scope string_scope.\n\n")
+	if err := emitPools(wp, fset, repo); err != nil {
+		fmt.Fprintln(os.Stderr, "translator:", err)
+		status = 1
+	}
+	files["Skeleton_pool.v"] = wp
+	names = append(names, "Skeleton_pool.v")
 	for _, n := range names {
 		if err := os.WriteFile(filepath.Join(outdir, n), []byte(files[n].String()), 0o644); err != nil {
 			fmt.Fprintln(os.Stderr, err)
